@@ -38,7 +38,7 @@ TIMEOUT = {"quick": 900, "thorough": 7200}
 MIN_CASES = {"quick": 5000, "thorough": 100000}
 REQUIRED_COUNTERS = ["requests_completed_with_own_response", "requests_failed_disconnected", "callers_cancelled", "events_delivered", "timeouts_fired", "stale_answers_dropped", "reconnects", "connections_abandoned", "peer_resets", "cancel_races_response"]
 
-ALPHABET = "RAPHEFGCTXUZK"
+ALPHABET = "RAPHEFGCTXUZKW"
 
 
 class Scenario:
@@ -123,7 +123,10 @@ class Scenario:
                         plain = self.event_plain(conn) + plain
                     elif a == "G":
                         plain = plain + self.event_plain(conn)
-                    r["wire"] = conn.wire(plain, self.rng.choice([None, [64], [1024], [7, 300]]))
+                    # the accessory's frame sizes; one choice ends a frame exactly between the CR and the LF of a header line
+                    # or of the blank line (the decrypted pieces reach the HTTP layer separately)
+                    crlf = [i + 1 for i in range(min(len(plain), 1000) - 1) if plain[i : i + 2] == b"\r\n"]
+                    r["wire"] = conn.wire(plain, self.rng.choice([None, [64], [1024], [7, 300]] + ([[self.rng.choice(crlf)]] * 2 if crlf else [])))
                     r["sent"] = 0
                 wire = r["wire"]
                 if a == "H" and r["answered"] == 0:
@@ -165,10 +168,26 @@ class Scenario:
                     rq["task"].cancel()
                     must_abandon = [r["conn"] for r in self.received if r["id"] == uid and r["answered"] < 2 and r["conn"].is_open]
                     break
+        elif a == "W":
+            await asyncio.sleep(12)  # time passes, no timer of a fresh request expires: later requests are YOUNGER than earlier ones
         elif a == "T":
             must_abandon = [r["conn"] for r in self.received if r["answered"] < 2 and r["conn"].is_open and not self.reqs[r["id"]]["task"].done()]
+            siblings = {}
+            for r in self.received:
+                if r["answered"] < 2 and r["conn"].is_open and not self.reqs[r["id"]]["task"].done():
+                    siblings.setdefault(r["conn"].index, []).append(r["id"])
             await asyncio.sleep(31)
             ctx.count("time_jumps")
+            # several requests outstanding on ONE connection: when the oldest one's 30 s timer abandons the connection, the
+            # younger ones fail with it - not each at its own timer
+            for ci, uids in siblings.items():
+                if len(uids) > 1:
+                    t_first = min(self.reqs[u]["issued"] for u in uids) + 30
+                    late = [(u, round(self.reqs[u]["done"] - t_first, 2)) for u in uids if self.reqs[u]["done"] is None or self.reqs[u]["done"] > t_first + 0.5]
+                    if late:
+                        self.ctx.violation("outstanding-request-not-failed-when-sibling-timed-out", f"schedule {self.schedule}: connection {ci} was abandoned when its oldest request timed out; requests {late} (id, seconds late) on the same connection failed only at their own timers", {"schedule": self.schedule, "api": self.api})
+                    else:
+                        ctx.count("siblings_failed_with_timed_out_request")
         elif a == "Z":
             conn = self.newest_open_secure()
             if conn is not None and not any(r["conn"] is conn and r["answered"] == 1 for r in self.received):
@@ -363,7 +382,7 @@ def run(ctx) -> None:
         rng = ctx.rng("C08.random")
         for k in range(ctx.pick(4000, 300000) // ctx.nshards):
             n = rng.randint(6, 30)
-            schedule = "R" + "".join(rng.choice("RRRAAPHEFGCTXUZK") for _ in range(n))
+            schedule = "R" + "".join(rng.choice("RRRAAPHEFGCTXUZKW") for _ in range(n))
             await run_one(ctx, schedule, rng.choice(["connection", "pipelined", "pipelined", "pairing"]), ("rand", ctx.shard, k))
 
     vloop.run(main())
